@@ -558,6 +558,10 @@ pub struct RenderOpts {
     /// by spaces, bit 3 = by a tab
     #[serde(default)]
     pub decl_layout: Vec<u8>,
+    /// spelling of the header's keys (they are case-insensitive): 0 = lower case; otherwise key i
+    /// is written as is, in upper case or with capitalised words, rotating from this value
+    #[serde(default)]
+    pub key_case: u8,
     /// separators between the names of a start-state declaration with several names (index into
     /// STATE_SEPS, rotated): any Pattern_White_Space that does not end the line
     #[serde(default)]
@@ -587,6 +591,7 @@ impl RenderOpts {
             directive_variant: 0,
             decl_layout: vec![],
             state_sep: 0,
+            key_case: 0,
         }
     }
     pub fn generate(ch: &mut Choices, n: usize, header: bool) -> Self {
@@ -604,6 +609,7 @@ impl RenderOpts {
             directive_variant: ch.pick(6),
             decl_layout: (0..6).map(|_| if ch.chance(1, 3) { 1 + ch.pick(15) as u8 } else { 0 }).collect(),
             state_sep: ch.pick(STATE_SEPS.len()),
+            key_case: ch.weighted(&[3, 1, 1, 1]) as u8,
         }
     }
 }
@@ -648,7 +654,19 @@ pub fn render(al: &AL, o: &RenderOpts) -> (String, Layout) {
             if !*v {
                 s.push('!');
             }
-            s.push_str(k);
+            let (name, rest) = k.split_at(k.find(':').unwrap_or(k.len()));
+            match if o.key_case == 0 { 0 } else { (o.key_case as usize + i) % 3 } {
+                1 => s.push_str(&name.to_ascii_uppercase()),
+                2 => {
+                    let mut up = true;
+                    for c in name.chars() {
+                        s.push(if up { c.to_ascii_uppercase() } else { c });
+                        up = c == '_';
+                    }
+                }
+                _ => s.push_str(name),
+            }
+            s.push_str(rest);
             if i + 1 < flags.len() || o.header_pad == 3 {
                 s.push(',');
             }
